@@ -10,41 +10,6 @@ import SMV.Codegen
 namespace SMV.C07
 open SMV
 
-mutual
-theorem supsOk_find_B (P : Name) : ∀ (x : BItem) (b : List BItem), supsOkB x = true → findSupB P x = some b →
-    leavesBs b ≠ [] ∧ (match declInit b none with | some i => i ∈ leavesBs b | none => True)
-  | .state _ _, _, _, h => by simp [findSupB] at h
-  | .initial _, _, _, h => by simp [findSupB] at h
-  | .unknown _, _, _, h => by simp [findSupB] at h
-  | .sup n _ body, b, hok, h => by
-      simp only [supsOkB, Bool.and_eq_true, Bool.not_eq_eq_eq_not, Bool.not_true] at hok
-      simp only [findSupB] at h
-      by_cases hn : n = P
-      · simp only [hn, ↓reduceIte, Option.some.injEq] at h
-        subst h
-        refine ⟨by intro he; simp [he] at hok, ?_⟩
-        have := hok.1.2
-        cases hd : declInit body none with
-        | none => trivial
-        | some i => simp only [hd] at this ⊢; simpa using this
-      · simp only [hn, ↓reduceIte] at h
-        exact supsOk_find_Bs P body b hok.2 h
-theorem supsOk_find_Bs (P : Name) : ∀ (xs : List BItem) (b : List BItem), supsOkBs xs = true → findSupBs P xs = some b →
-    leavesBs b ≠ [] ∧ (match declInit b none with | some i => i ∈ leavesBs b | none => True)
-  | [], _, _, h => by simp [findSupBs] at h
-  | x :: xs, b, hok, h => by
-      simp only [supsOkBs, Bool.and_eq_true] at hok
-      simp only [findSupBs] at h
-      cases hx : findSupB P x with
-      | some b' =>
-        simp only [hx, Option.some.injEq] at h
-        subst h
-        exact supsOk_find_B P x b' hok.1 hx
-      | none =>
-        simp only [hx] at h
-        exact supsOk_find_Bs P xs b hok.2 h
-end
-
 section
 variable {items : List TItem} {st : PS}
 
